@@ -31,6 +31,7 @@ CONSTANTS Sub,            \* submitters: callers of Pipeline::process
           Calls,          \* [Sub -> Seq(Id)]: the ids a submitter submits, one call after the other
           ChanCap,        \* capacity of pipeline_tx (pipeline.rs:28, 128 in the code)
           RegisterFirst,  \* BOOLEAN, see above
+          Cancellable,    \* SUBSET Sub: callers whose `process` future may be dropped at an await point
           MaxTasks        \* upper bound on Task objects ever created (>= total number of calls)
 
 NoTask == 0
@@ -133,6 +134,19 @@ AwaitReturn(s) ==
     /\ Finish(s, result[held[s]])
     /\ UNCHANGED <<tracker, tlock, ntasks, result, waiters, chan, ppc, pcur, ptask, runs>>
 
+\* Beyond C14's wording: the caller drops the `process` future while it is suspended (between
+\* track and send, at the channel, in `ready`).  A created Notified is dropped with it.  The
+\* submitter makes no further calls.
+CancelledRes == [id |-> "cancelled", run |-> 0]
+Cancel(s) ==
+    /\ s \in Cancellable /\ pc[s] \in {"send", "create", "check", "window", "await"}
+    /\ ret' = [ret EXCEPT ![s] = Append(@, CancelledRes)]
+    /\ pc' = [pc EXCEPT ![s] = "finished"]
+    /\ waiters' = [waiters EXCEPT ![held[s]] = @ \ {s}]
+    /\ woken' = woken \ {s}
+    /\ held' = [held EXCEPT ![s] = NoTask]
+    /\ UNCHANGED <<tracker, tlock, ntasks, result, chan, call, ppc, pcur, ptask, runs>>
+
 SubNext(s) == Track(s) \/ Send(s) \/ CreateNotified(s) \/ CheckSome(s) \/ CheckNone(s) \/ AwaitReturn(s)
 
 ---------------------------------------------------------------------------
@@ -192,7 +206,7 @@ AllFinished == \A s \in Sub : pc[s] = "finished"
 Quiet == AllFinished /\ ppc = "idle" /\ chan = <<>>
 Terminated == Quiet /\ UNCHANGED vars
 
-Step == (\E s \in Sub : SubNext(s)) \/ PipeNext
+Step == (\E s \in Sub : SubNext(s) \/ Cancel(s)) \/ PipeNext
 Next == Step \/ Terminated
 
 Fairness == (\A s \in Sub : WF_vars(SubNext(s))) /\ WF_vars(PipeNext)
@@ -207,8 +221,9 @@ EveryCallReturns == \A s \in Sub : <>(pc[s] = "finished")
 \* ... and returns the result of a processing run of the operation it submitted
 OwnResult ==
     \A s \in Sub : \A k \in 1..Len(ret[s]) :
-        /\ ret[s][k].id = Calls[s][k]
-        /\ ret[s][k].run \in 1..runs
+        \/ ret[s][k] = CancelledRes
+        \/ /\ ret[s][k].id = Calls[s][k]
+           /\ ret[s][k].run \in 1..runs
 
 \* the `expect("result exists after ready signal was fired")` in Task::ready never fires
 NoPanic == \A s \in Sub : \A k \in 1..Len(ret[s]) : ret[s][k] # None
@@ -223,6 +238,10 @@ NoLostWakeup ==
          /\ result[held[s]] # None
          /\ ~(ppc = "notify" /\ ptask = held[s]))      \* the notify_waiters call is over
             => s \in woken
+
+\* Beyond C14: nothing stays in the tracker once everything is quiet.  Does NOT hold when a
+\* caller can be cancelled between `track` and `send` (the entry is never removed): see NOTES.md.
+NoOrphanTask == Quiet => \A x \in Id : tracker[x] = NoTask
 
 \* structural sanity
 TypeOK ==
